@@ -37,7 +37,11 @@ var solvers = []solverSpec{
 }
 
 func runSolver(s solverSpec, file string, timeoutS int) (status string, out string, secs float64) {
-	ctx, cancel := context.WithTimeout(context.Background(), time.Duration(timeoutS+2)*time.Second)
+	return runSolverCtx(context.Background(), s, file, timeoutS)
+}
+
+func runSolverCtx(parent context.Context, s solverSpec, file string, timeoutS int) (status string, out string, secs float64) {
+	ctx, cancel := context.WithTimeout(parent, time.Duration(timeoutS+2)*time.Second)
 	defer cancel()
 	a := s.args(file, timeoutS)
 	cmd := exec.CommandContext(ctx, a[0], a[1:]...)
@@ -97,8 +101,8 @@ func SolveAll(g *Gen, header string, results []*FnResult, outDir string, par int
 			os.WriteFile(file, []byte(g.ObligationSMT(header, j.r, j.o)), 0o644)
 			sr := &SolveResult{Obl: j.o, Fn: j.r.Key, File: file}
 			short := timeoutS
-			if short > 5 {
-				short = 5
+			if short > 1 {
+				short = 1 // most obligations take z3-new a few hundredths of a second; everything else is raced below
 			}
 			st, o, secs := runSolver(solvers[0], file, short)
 			sr.Tried = append(sr.Tried, fmt.Sprintf("%s:%s:%.2fs", solvers[0].name, st, secs))
@@ -124,10 +128,18 @@ func SolveAll(g *Gen, header string, results []*FnResult, outDir string, par int
 			if timeoutS > short {
 				cands = append(cands, solvers[0])
 			}
+			rctx, rcancel := context.WithCancel(context.Background())
+			defer rcancel()
 			for _, s := range cands {
 				go func(s solverSpec) {
 					sem <- struct{}{}
-					st, o, secs := runSolver(s, file, timeoutS)
+					st, o, secs := "cancelled", "", 0.0
+					if rctx.Err() == nil {
+						st, o, secs = runSolverCtx(rctx, s, file, timeoutS)
+						if rctx.Err() != nil && st != "unsat" && st != "sat" {
+							st = "cancelled"
+						}
+					}
 					<-sem
 					ch <- res{s, st, o, secs}
 				}(s)
@@ -149,6 +161,9 @@ func SolveAll(g *Gen, header string, results []*FnResult, outDir string, par int
 					if sr.Status != "unsat" {
 						sr.Status, sr.Solver, sr.Seconds, sr.Output = r.st, r.s.name, r.secs, r.o
 					}
+				}
+				if r.st == "unsat" {
+					rcancel() // the race is decided: stop the other solvers
 				}
 			}
 			_ = agree
